@@ -454,3 +454,61 @@ def tree_features(tree):
     labels = ['changes-%d' % min(nchanges, 4), 'files-%d' % min(nfiles, 6)]
     nontrivial = (nchanges >= 2 or nfiles >= 2) and nondefault >= 1
     return labels, nontrivial
+
+
+def rebuild(snap):
+    """A fresh tree with exactly the state a snapshot describes, built
+    through the public API (options dictionaries and content attributes)."""
+    ns = sut.load()
+    diffx = ns.DiffX()
+
+    def fill(section, s):
+        section.options.clear()
+        section.options.update(copy.deepcopy(s[2]))
+
+    def fill_content(section, s):
+        fill(section, s)
+
+        if s[3] is not None:
+            section.content = copy.deepcopy(s[3])
+
+    fill(diffx, snap)
+    kids = snap[4]
+    fill_content(diffx.preamble_section, kids[0])
+    fill_content(diffx.meta_section, kids[1])
+
+    for cs in kids[2:]:
+        change = diffx.add_change()
+        fill(change, cs)
+        fill_content(change.preamble_section, cs[4][0])
+        fill_content(change.meta_section, cs[4][1])
+
+        for fs in cs[4][2:]:
+            f = change.add_file()
+            fill(f, fs)
+            fill_content(f.meta_section, fs[4][0])
+            fill_content(f.diff_section, fs[4][1])
+
+    return diffx
+
+
+def content_list(snap):
+    """[(section id, content)] of the non-empty content sections and the
+    containers of a snapshot, in file order (what a streaming reader of the
+    serialised tree would yield)."""
+    out = []
+
+    def walk(s):
+        name, sid, opts, content, children = s
+
+        if children or name in ('DiffX', 'DiffXChangeSection',
+                                'DiffXFileSection'):
+            out.append((sid, None))
+
+            for c in children:
+                walk(c)
+        elif content:
+            out.append((sid, content))
+
+    walk(snap)
+    return out
